@@ -590,8 +590,9 @@ class BGP(protocol.Protocol):
 
         """Negotiates the hold time"""
 
+        proposed = hold_time
         self.fsm.hold_time = min(self.fsm.hold_time, hold_time)
-        if self.fsm.hold_time != 0 and self.fsm.hold_time < 3:
+        if proposed in (1, 2) or (self.fsm.hold_time != 0 and self.fsm.hold_time < 3):
             self.fsm.open_message_error(bgp_cons.ERR_MSG_OPEN_UNACCPT_HOLD_TIME)
             # Derived times
         self.fsm.keep_alive_time = self.fsm.hold_time / 3
